@@ -1,5 +1,5 @@
 """MANIFEST.setup_cmd: nothing is built or fetched; verify the two
-interpreters, z3 and cvc5 are usable and /repo parses."""
+interpreters, z3 and cvc5 are usable, /repo parses, and the interpreter agrees with CPython on pyvc/corpus (concrete and symbolic)."""
 import subprocess, sys, os
 def main():
     import z3
@@ -12,5 +12,11 @@ def main():
     assert r.returncode == 0, r.stderr
     from pyvc.engine import Engine
     e = Engine(); e.load_module("panoptica")
-    print("selftest ok: z3", z3.get_version_string(), "| numpy", r.stdout.strip().splitlines()[-1], "| modules", len(e.modules))
+    from pyvc import difftest
+    d = difftest.main()
+    for b in d["mismatches"][:20]:
+        print("  ENGINE/CPYTHON MISMATCH", b)
+    assert not d["mismatches"], "the interpreter disagrees with CPython on the differential corpus"
+    print("selftest ok: z3", z3.get_version_string(), "| numpy", r.stdout.strip().splitlines()[-1], "| modules", len(e.modules),
+          f"| engine-vs-CPython differential: {d['concrete_cases']} concrete cases, {d['symbolic_points']} symbolic grid points, 0 mismatches")
 main()
